@@ -6,7 +6,8 @@ from pyvc.sym import Sym
 META = {
     "explanation": "under the unit abstraction 5.1: Reaction.check_consistent_units accepts a unit-carrying constant iff its dimension is concentration^(1-order)/time for orders 0..3 and any time/concentration units (generic scales), and rejects each one-off dimension; Equilibrium.check_consistent_units never accepts a constant of another dimension than concentration^(products-reactants); the args_dimensionality of MassAction/Arrhenius/Eyring/EyringHS/Radiolytic/RampedTemp/SinTemp equal the dimension algebra of their formulas for EVERY reaction order (symbolic order); Expr.dedimensionalisation returns per argument the registry unit and the magnitude with phys(arg) = magnitude * phys(unit), recursively for nested expressions, defaults converted likewise; hence the dedimensionalised mass-action rate times the registry's rate unit equals the physical rate for any registry (orders 0-3)",
     "trusted_base": ["assumed contract 5.1 (pyvc/qmodel.py)", "contracts assumed at call sites for default_unit_in_registry / unitless_in_registry (they walk quantities internals; bounded stand-in): unit = product of registry units to the argument's SI exponents"],
-    "not_decided": ["get_odesys's to_arrays/post-processing callbacks end to end and the alternative builder's validation (pyodesys in the loop): bounded metamorphic stand-in over three registries"],
+    "not_decided": ["get_odesys's to_arrays/post-processing callbacks end to end and the alternative builder's validation (pyodesys in the loop): bounded metamorphic stand-in over three registries; in the contract tier only hand-computed data cases (t != 0, temperature units, output rescaling, Radiolytic keys, validate)",
+                    "acceptance by Equilibrium.check_consistent_units of exact spellings of 1 M other than `molar` with real (float) quantities: the iff is a statement in the exact reals of 5.1; mol/dm3 is refused on the pinned tree"],
     "assumptions": [],
 }
 CH = "chempy.chemistry"
@@ -82,7 +83,7 @@ def _ecu(nreac, nprod):
     @harness("C10", "Equilibrium.check_consistent_units.r%dp%d" % (nreac, nprod), functions=[CH + ":Equilibrium.check_consistent_units", "chempy.units:unit_of"], kind="shape-bounded", div_mode="assume", samples=0)
     def _(v):
         from chempy.chemistry import Equilibrium
-        from pyvc.qmodel import dim_of
+        from pyvc.qmodel import dim_of, Quantity
         t, u = _env(v)
         m = v.real("K", lo=1e-9, hi=1e9)
         expo = nprod - nreac
@@ -95,11 +96,17 @@ def _ecu(nreac, nprod):
         ok = v.call(eq.check_consistent_units)
         if off is not None:
             v.prove("wrong_dimension_never_accepted", ok is False or ok == False)   # noqa
-            v.prove("wrong_dimension_throws", v.run(eq.check_consistent_units, throw=True).raised(ValueError))
+            # throw=True must refuse by raising; WHICH exception is not part of the property (Reaction's twin accepts any, too)
+            v.prove("wrong_dimension_throws", v.run(eq.check_consistent_units, throw=True).raised(Exception))
         else:
-            # right dimension: accepted exactly when the scale is that of molar**expo (stricter than the property; documented)
+            # right dimension: accepted exactly when the scale is that of molar**expo (stricter than the property, which only has the "accepted =>
+            # right dimension" half). NB this is a statement in the EXACT reals of abstraction 5.1: the real package compares float scales, and
+            # its "if" half is false there for some exact spellings of 1 M (3*u.mol/u.dm3 -> 999.9999999999998 mol/m**3, refused; reported to the
+            # maintainer by the second review, finding 3). What holds with real quantities is stated in Equilibrium.real_quantities below.
             v.prove("right_dimension_accepted_iff_molar_scale", SP.iff(ok, t.scale["ku"] == 1000 ** expo if expo >= 0 else t.scale["ku"] * 1000 ** (-expo) == 1))
-        molar = Equilibrium({"A": nreac}, {"B": nprod}, m * (u.molar ** expo if expo else 1), checks=())
+        # for expo == 0 the constant must still be a QUANTITY (dimensionless), not a plain number: a plain number is accepted by the
+        # "user is not using units" branch whatever the check does
+        molar = Equilibrium({"A": nreac}, {"B": nprod}, m * u.molar ** expo if expo else Quantity(m, {}, t), checks=())
         v.prove("molar_units_accepted", bool(v.call(molar.check_consistent_units)) is True)
     return _
 
@@ -134,13 +141,6 @@ def _(v):
     n = v.int("order", lo=0, hi=50)
     rxn = make_obj(Reaction, reac={"A": n}, prod={"P": 1}, inact_reac={}, inact_prod={}, param=None)
     kdim = {"time": -1, "amount": 1 - n, "length": 3 * (n - 1)}
-
-    def same(d, exp):
-        return SP.conj([set(d) == set(exp)] + [d[k] == exp[k] for k in exp])
-    (d,) = v.call(R.MassAction([1.0]).args_dimensionality, rxn)
-    v.prove("MassAction", same(d, kdim))
-    dA, dE = v.call(R.Arrhenius([1.0, 1.0]).args_dimensionality, rxn)
-    v.prove("Arrhenius", SP.conj([same(dA, kdim), dE == {"temperature": 1}]))
     BASE = ("length", "mass", "time", "current", "temperature", "luminous_intensity", "amount")
 
     def lin(*terms):
@@ -148,25 +148,35 @@ def _(v):
         return {b: sum(f * d.get(b, 0) for f, d in terms) for b in BASE}
 
     def dim_eq(a, b):
-        return SP.conj([a.get(k, 0) == b.get(k, 0) for k in BASE])
+        # equality of DIMENSIONS: a base dimension left out and one listed with exponent 0 are the same thing for every consumer
+        # (unit_registry[dim] ** v); a key that is no base dimension is not (the consumer's registry lookup fails on it)
+        return SP.conj([all(k in BASE for k in a)] + [a.get(k, 0) == b.get(k, 0) for k in BASE])
+
+    def dims_eq(got, exp):
+        return len(got) == len(exp) and SP.conj([dim_eq(g, e) for g, e in zip(got, exp)])
     Tdim = {"temperature": 1}
+    (d,) = v.call(R.MassAction([1.0]).args_dimensionality, rxn)
+    v.prove("MassAction", dim_eq(d, kdim))
+    dA, dE = v.call(R.Arrhenius([1.0, 1.0]).args_dimensionality, rxn)
+    v.prove("Arrhenius", SP.conj([dim_eq(dA, kdim), dim_eq(dE, Tdim)]))
     # Eyring: k = arg0 * T * exp(-arg1 / T) * conc0**(1 - order)  (the formula in Eyring.__call__, proved in C16): the dimensions declared for the
     # arguments must make the exponent dimensionless and k a rate constant of this order -- taken from the formula, not from the declaration
     d0, d1, d2 = v.call(R.Eyring([1.0, 1.0]).args_dimensionality, rxn)
     v.prove("Eyring.exponent_dimensionless", dim_eq(lin((1, d1), (-1, Tdim)), {}))
-    v.prove("Eyring.standard_state_is_a_concentration", dict(d2) == {"amount": 1, "length": -3})
+    v.prove("Eyring.standard_state_is_a_concentration", dim_eq(d2, {"amount": 1, "length": -3}))
     v.prove("Eyring.formula_has_the_dimension_of_a_rate_constant_of_this_order", dim_eq(lin((1, d0), (1, Tdim), (1 - n, d2)), kdim))
     h0, h1, h2 = v.call(R.EyringHS([1.0, 1.0]).args_dimensionality)
     energy = {"mass": 1, "length": 2, "time": -2}
-    v.prove("EyringHS", dict(h0) == dict(energy, amount=-1) and dict(h1) == dict(energy, amount=-1, temperature=-1) and dict(h2) == {"amount": 1, "length": -3})
+    v.prove("EyringHS", dims_eq((h0, h1, h2), (dict(energy, amount=-1), dict(energy, amount=-1, temperature=-1), {"amount": 1, "length": -3})))
     # EyringHS: k = kB/h * T * exp(-(dH - T*dS)/(R*T)) * c0**(1 - order);  kB/h*T is 1/time, R = energy/(amount*temperature)
     Rdim = dict(energy, amount=-1, temperature=-1)
     v.prove("EyringHS.exponent_dimensionless", SP.conj([dim_eq(lin((1, h0), (-1, Rdim), (-1, Tdim)), {}), dim_eq(lin((1, h1), (-1, Rdim)), {})]))
     v.prove("EyringHS.formula_has_the_dimension_of_a_rate_constant_of_this_order", dim_eq(lin((1, {"time": -1}), (1 - n, h2)), kdim))
     # Arrhenius: k = A * exp(-Ea_over_R / T)
     v.prove("Arrhenius.exponent_dimensionless", dim_eq(lin((1, dE), (-1, Tdim)), {}))
-    v.prove("RampedTemp", v.call(R.RampedTemp([1.0, 1.0]).args_dimensionality) == ({"temperature": 1}, {"temperature": 1, "time": -1}))
-    v.prove("SinTemp", v.call(R.SinTemp([1.0, 1.0, 1.0, 1.0]).args_dimensionality) == ({"temperature": 1}, {"temperature": 1}, {"time": -1}, {}))
+    # T(t) = T0 + dTdt * t;  T(t) = Tbase + Tamp * sin(angvel * t + phase)
+    v.prove("RampedTemp", dims_eq(v.call(R.RampedTemp([1.0, 1.0]).args_dimensionality), (Tdim, {"temperature": 1, "time": -1})))
+    v.prove("SinTemp", dims_eq(v.call(R.SinTemp([1.0, 1.0, 1.0, 1.0]).args_dimensionality), (Tdim, Tdim, {"time": -1}, {})))
 
 
 @harness("C10", "Radiolytic.args_dimensionality", functions=["chempy.kinetics.rates:mk_Radiolytic.<locals>._Radiolytic.args_dimensionality"], kind="data")
@@ -176,6 +186,13 @@ def _(v):
     v.prove("amount_per_energy", len(d) == 1 and {k: x for k, x in d[0].items() if x} == {"amount": 1, "mass": -1, "length": -2, "time": 2})
     d2 = mk_Radiolytic("a", "b")([1.0, 2.0]).args_dimensionality(None)
     v.prove("one_per_doserate", len(d2) == 2 and d2[0] == d2[1])
+
+
+def _si(q):
+    """(magnitude in SI base units, dimensionality in SI base units) of a real `quantities` object -- computed by the quantities package itself
+    (third party, not under test), never by chempy.units"""
+    s = (1 * q).simplified
+    return float(s.magnitude), s.dimensionality
 
 
 def _registry(v, t):
@@ -246,16 +263,18 @@ for _o in (0, 1, 2, 3):
 @harness("C10", "unit_aware_system_on_the_real_package", functions=["chempy.kinetics.ode:get_odesys", "chempy.kinetics.ode:get_odesys.<locals>._reg_unique", "chempy.util._expr:Expr.dedimensionalisation",
                                                                   "chempy.units:default_unit_in_registry", "chempy.units:unitless_in_registry"], kind="data")
 def _(v):
-    """end to end with real quantities: free named constants that also carry a (non registry-coherent) value, three reaction orders, three
-    registries -- the reported parameter units are the registry's units for the dimension of each constant, and the physical rate from
-    to_arrays + f_cb equals the rate computed by hand in M and s; a registry dict edited in place is read as it is at the time of the call"""
+    """end to end with real quantities: free named constants that also carry a (non registry-coherent) value, three reaction orders, four
+    registries -- 'parameter units reported alongside are consistent with it': the number to_arrays hands to the integrator for each constant,
+    times the unit reported for its key, is the constant that was given (same dimension, same physical value; WHICH unit is reported is not part
+    of the property -- chempy reports the registry's coherent unit), and the physical rate from to_arrays + f_cb equals the rate computed by hand
+    in M and s; a registry dict edited in place is read as it is at the time of the call"""
     import warnings
     import numpy as np
     from chempy.chemistry import Reaction
     from chempy.reactionsystem import ReactionSystem
     from chempy.kinetics.ode import get_odesys
     from chempy.kinetics.rates import MassAction
-    from chempy.units import SI_base_registry, default_units as u, get_derived_unit, to_unitless
+    from chempy.units import SI_base_registry, default_units as u, to_unitless
     warnings.simplefilter("ignore")
     k1, k2, k3 = 3.0 / u.mM / u.minute, 0.5 / u.hour, 7.0 * u.uM / u.s
     rsys = ReactionSystem([Reaction({"A": 2}, {"B": 1}, MassAction([k1], unique_keys=["k1"])), Reaction({"B": 1}, {"A": 2}, MassAction([k2], unique_keys=["k2"])),
@@ -269,13 +288,14 @@ def _(v):
     for name, reg in regs.items():
         try:
             odesys, extra = get_odesys(rsys, include_params=False, unit_registry=reg)
-            conc, tm = get_derived_unit(reg, "concentration"), reg["time"]
-            want_units = [1 / conc / tm, 1 / tm, conc / tm]
+            conc, tm = reg["amount"] / reg["length"] ** 3, reg["time"]
             pu = dict(zip(odesys.param_names, extra["p_units"]))
-            for key, wu in zip(("k1", "k2", "k3"), want_units):
-                if abs(float(to_unitless(1 * pu[key], wu)) - 1) > 1e-12:
-                    bad.append((name, key, str(pu[key])))
             x, y, p = odesys.to_arrays(0 * u.s, c0, {"k1": k1, "k2": k2, "k3": k3})
+            pv = dict(zip(odesys.param_names, np.ravel(p)))
+            for key, given in (("k1", k1), ("k2", k2), ("k3", k3)):
+                (us, ud), (gs, gd) = _si(pu[key]), _si(given)
+                if ud != gd or abs(float(pv[key]) * us / gs - 1) > 1e-11:
+                    bad.append((name, key, str(pu[key]), float(pv[key])))
             f = np.asarray(odesys.f_cb(np.ravel(x)[0], np.ravel(y), np.ravel(p)), dtype=float).ravel()
             phys = [float(to_unitless(fi * conc / tm, u.molar / u.s)) for fi in f]
             if not np.allclose(phys, ref, rtol=1e-10, atol=0):
@@ -302,8 +322,11 @@ def _(v):
 @harness("C10", "wrapped_constants", functions=["chempy.chemistry:Reaction.check_consistent_units", "chempy.util._expr:Expr.dedimensionalisation", "chempy.kinetics.ode:get_odesys"], kind="data")
 def _(v):
     """'accepts a unit-carrying rate constant iff its dimension is concentration^(1-order)/time' also when the constant is wrapped in a rate
-    expression or handed in through `substitutions`: a constant of the wrong dimension must be refused somewhere on the way to the ODE system,
-    or at least must not produce a physical rate that depends on the registry"""
+    expression or handed in through `substitutions`: a constant of the wrong dimension must be REFUSED somewhere on the way to the ODE system
+    (a registry independent but physically meaningless number -- e.g. the SI magnitude of the wrong-dimension constant -- is not acceptance of
+    the right thing; the obligation names still say 'or_harmless' because known_findings.json and the baseline refer to them), and on every one
+    of the three routes a constant of the RIGHT dimension is accepted and gives the hand-computed rate in every registry (so that 'refused' cannot
+    be earned by refusing every quantity, or by an unrelated exception)"""
     import warnings
     import numpy as np
     from chempy.chemistry import Reaction
@@ -333,11 +356,16 @@ def _(v):
         return ("independent" if max(r) - min(r) <= 1e-9 * max(abs(x) for x in r) else "registry dependent"), r
     good = verdict(lambda: rates(Reaction({"A": 1, "B": 1}, {"C": 1}, MassAction([3 / u.molar / u.s])), {}))
     v.prove("right_dimension_wrapped_is_accepted_and_registry_independent", good[0] == "independent" and abs(good[1][0] + 6.0) < 1e-9, detail=repr(good))
+    # positive controls of the two other routes: k = 3/(M s) (activation temperature 0 K: Arrhenius factor 1), [A] = 1 M, [B] = 2 M: d[A]/dt = -6 M/s
+    for label, make in (("MassAction_of_Arrhenius", lambda: rates(Reaction({"A": 1, "B": 1}, {"C": 1}, MassAction(Arrhenius([3 / u.molar / u.s, 0 * u.K]))), {"temperature": 300 * u.K})),
+                        ("substitution", lambda: rates(Reaction({"A": 1, "B": 1}, {"C": 1}, "k1"), {}, substitutions={"k1": 180 / u.molar / u.minute}))):
+        res = verdict(make)
+        v.prove("right_dimension_" + label + "_is_accepted_and_registry_independent", res[0] == "independent" and abs(res[1][0] + 6.0) < 1e-9, detail=repr(res))
     for label, make in (("MassAction", lambda: rates(Reaction({"A": 1, "B": 1}, {"C": 1}, MassAction([3 / u.s])), {})),
                         ("MassAction_of_Arrhenius", lambda: rates(Reaction({"A": 1, "B": 1}, {"C": 1}, MassAction(Arrhenius([3 / u.s, 0 * u.K]))), {"temperature": 300 * u.K})),
                         ("substitution", lambda: rates(Reaction({"A": 1, "B": 1}, {"C": 1}, "k1"), {}, substitutions={"k1": 3 / u.s}))):
         res = verdict(make)
-        v.prove("wrong_dimension_" + label + "_refused_or_harmless", res[0] in ("refused", "independent"), detail=repr(res))
+        v.prove("wrong_dimension_" + label + "_refused_or_harmless", res[0] == "refused", detail=repr(res))
 
 
 @harness("C10", "alternative_builder.dedimensionalisation_of_a_problem", functions=["chempy.kinetics.ode:_mk_dedim", "chempy.kinetics.ode:_mk_dedim.<locals>.dedim_tcp", "chempy.units:get_derived_unit", "chempy.units:to_unitless"],
@@ -388,8 +416,16 @@ def _(v):
     rsys = ReactionSystem([Reaction({"A": 2}, {"B": 1}, MassAction([k1], unique_keys=["k1"])), Reaction({"B": 1}, {"A": 2}, MassAction([k2], unique_keys=["k2"]))], "A B")
     c0 = {"A": 2 * u.mM, "B": 1 * u.uM}
     accepted, converted = [], []
+    # hand conversion of k1 = 3/(mM min) and k2 = 0.5/h into each registry's units:
+    #   SI (m, s, mol): mM = mol/m3 -> 3/60 m3/(mol s), 0.5/3600 1/s;      dm/min/umol: mM = 1000 umol/dm3 -> 3e-3 dm3/(umol min), 0.5/60 1/min
+    #   cm/h (mol): mM = 1e-6 mol/cm3 -> 3e6 * 60 cm3/(mol h), 0.5 1/h;     0.1 m / 60 s (mol): mM = 1e-3 mol/(0.1 m)3 -> 3e3, 0.5/60
+    hand_p = {"SI": (0.05, 0.5 / 3600), "dm_min_umol": (3e-3, 0.5 / 60), "cm_h": (1.8e8, 0.5), "scaled_base_units": (3e3, 0.5 / 60)}
     for name, reg in regs.items():
-        odesys, extra = get_odesys(rsys, include_params=False, unit_registry=reg)
+        try:
+            odesys, extra = get_odesys(rsys, include_params=False, unit_registry=reg)
+        except Exception as ex:
+            accepted.append((name, "get_odesys", repr(ex)[:120])); converted.append((name, "get_odesys", repr(ex)[:120]))
+            continue
         for label, wrong in (("first_order_unit_for_k1", {"k1": 4.0 / u.s, "k2": k2}), ("second_order_unit_for_k2", {"k1": k1, "k2": 4.0 / u.mM / u.s}), ("concentration_for_k2", {"k1": k1, "k2": 4.0 * u.mM}),
                              ("bare_number_for_k1", {"k1": 4.0, "k2": k2})):
             try:
@@ -397,10 +433,14 @@ def _(v):
                 accepted.append((name, label))
             except Exception:
                 pass
-        x, y, p = odesys.to_arrays(0 * u.s, c0, {"k1": 50.0 / u.M / u.s, "k2": 0.5 / 60 / u.minute})
-        x2, y2, p2 = odesys.to_arrays(0 * u.s, c0, {"k1": k1, "k2": k2})
-        if not np.allclose(np.asarray(p, dtype=float), np.asarray(p2, dtype=float), rtol=1e-12, atol=0):
-            converted.append((name, list(np.ravel(p)), list(np.ravel(p2))))
+        try:
+            x, y, p = odesys.to_arrays(0 * u.s, c0, {"k1": 50.0 / u.M / u.s, "k2": 0.5 / 60 / u.minute})
+            x2, y2, p2 = odesys.to_arrays(0 * u.s, c0, {"k1": k1, "k2": k2})
+            want = [dict(zip(("k1", "k2"), hand_p[name]))[k] for k in odesys.param_names]
+            if not (np.allclose(np.asarray(p, dtype=float), want, rtol=1e-12, atol=0) and np.allclose(np.asarray(p2, dtype=float), want, rtol=1e-12, atol=0)):
+                converted.append((name, list(np.ravel(p)), list(np.ravel(p2)), want))
+        except Exception as ex:
+            converted.append((name, repr(ex)[:120]))
     v.prove("wrong_dimension_refused_at_run_time", not accepted, detail=repr(accepted[:4]))
     # one NAMED constant used by two reactions that need different dimensions (first and second order) has no dimension that suits both:
     # refused when the system is built or when the value is handed in, never accepted for one of the two (rates would depend on the registry);
@@ -464,3 +504,267 @@ def _(v):
             except Exception as ex:
                 bad.append((mode, name, repr(ex)[:160]))
     v.prove("default_standard_concentration_in_registry_units", not bad, detail=repr(bad[:2]))
+
+
+@harness("C10", "unit_aware_system_at_later_times_and_other_temperature_units", functions=["chempy.kinetics.ode:get_odesys", "chempy.kinetics.ode:get_odesys.<locals>.<lambda>", "chempy.units:to_unitless",
+                                                                                         "chempy.kinetics.rates:RampedTemp", "chempy.kinetics.rates:Arrhenius"], kind="data")
+def _(v):
+    """'the same in every base-unit registry and for every choice of units for constants, concentrations and TIME' at t != 0, with a temperature
+    that is not given in K, in registries whose temperature / mass unit is not the SI one:  A + B -> C,  k = 2e10/(M s) * exp(-7000 K / T),
+    [A] = 2 mM, [B] = 3 mM.  (a) T(t) = 300 K + 30 K/min * t substituted: at t = 2 min T = 360 K, d[C]/dt = 2e10 * exp(-7000/360) * 6e-6 M/s, and the
+    time handed to the integrator is 2 min in the registry's time unit;  (b) T = 310 K handed in at run time as 0.31 (1000 K), 310 K and 310000 mK:
+    d[C]/dt = 2e10 * exp(-7000/310) * 6e-6 M/s, and the number handed over times the unit reported for 'temperature' is 310 K"""
+    import math
+    import warnings
+    import numpy as np
+    import quantities as pq
+    from chempy.chemistry import Reaction
+    from chempy.reactionsystem import ReactionSystem
+    from chempy.kinetics.ode import get_odesys
+    from chempy.kinetics.rates import MassAction, Arrhenius, RampedTemp
+    from chempy.units import SI_base_registry, default_units as u
+    warnings.simplefilter("ignore")
+    # name -> (registry, its time unit in s)
+    regs = {"mK_gram_dm": (dict(SI_base_registry, temperature=pq.mK, mass=u.gram, length=u.decimetre), 1.0), "kK_min": (dict(SI_base_registry, temperature=1000 * u.K, time=u.minute), 60.0),
+            "SI": (dict(SI_base_registry), 1.0)}
+    c0 = {"A": 2 * u.mM, "B": 3e3 * u.uM, "C": 0 * u.molar}
+    mk = lambda: ReactionSystem([Reaction({"A": 1, "B": 1}, {"C": 1}, MassAction(Arrhenius([2e10 / u.molar / u.s, 7000 * u.K])))], "A B C")
+
+    def phys_rate(reg, odesys, x, y, p):
+        f = np.asarray(odesys.f_cb(np.ravel(x)[-1], np.ravel(y), np.ravel(p)), dtype=float).ravel()
+        scale, dim = _si(reg["amount"] / reg["length"] ** 3 / reg["time"])       # mol/m3/s per registry rate unit
+        return [fi * scale / 1000.0 for fi in f]                                 # M/s
+    bad_rate, bad_time, bad_T = [], [], []
+    r360, r310 = 2e10 * math.exp(-7000.0 / 360) * 2e-3 * 3e-3, 2e10 * math.exp(-7000.0 / 310) * 2e-3 * 3e-3
+    for name, (reg, time_s) in regs.items():
+        try:
+            odesys, extra = get_odesys(mk(), unit_registry=reg, substitutions={"temperature": RampedTemp([300 * u.K, 30 * u.K / u.minute])})
+            for tend in (2 * u.minute, 120 * u.s, (1 / 30.) * u.hour):
+                x, y, p = odesys.to_arrays(tend, c0, {})
+                xs = [float(xi) for xi in np.ravel(x)]
+                if not (len(xs) >= 1 and abs(xs[-1] * time_s / 120.0 - 1) < 1e-12 and (len(xs) == 1 or xs[0] == 0)):
+                    bad_time.append((name, str(tend), xs))
+                got = phys_rate(reg, odesys, x, y, p)
+                if not np.allclose(got, [-r360, -r360, r360], rtol=1e-9, atol=0):
+                    bad_rate.append((name, str(tend), got, r360))
+        except Exception as ex:
+            bad_rate.append((name, repr(ex)[:160])); bad_time.append((name, repr(ex)[:160]))
+        try:
+            odesys, extra = get_odesys(mk(), unit_registry=reg)
+            (ts, td) = _si(dict(zip(odesys.param_names, extra["p_units"]))["temperature"])
+            for T in (0.31 * (1000 * u.K), 310 * u.K, 310000 * pq.mK):
+                x, y, p = odesys.to_arrays(2 * u.minute, c0, {"temperature": T})
+                pT = float(dict(zip(odesys.param_names, np.ravel(p)))["temperature"])
+                got = phys_rate(reg, odesys, x, y, p)
+                if td != _si(u.K)[1] or abs(pT * ts / 310.0 - 1) > 1e-12 or not np.allclose(got, [-r310, -r310, r310], rtol=1e-9, atol=0):
+                    bad_T.append((name, str(T), pT, ts, got, r310))
+        except Exception as ex:
+            bad_T.append((name, repr(ex)[:160]))
+    v.prove("ramped_temperature_rate_at_two_minutes", not bad_rate, detail=repr(bad_rate[:2]))
+    v.prove("time_handed_over_in_the_registrys_time_unit", not bad_time, detail=repr(bad_time[:2]))
+    v.prove("temperature_in_any_unit_and_registry", not bad_T, detail=repr(bad_T[:2]))
+
+
+@harness("C10", "Equilibrium.real_quantities", functions=[CH + ":Equilibrium.check_consistent_units", CH + ":Reaction.__init__", "chempy.units:unit_of"], kind="data")
+def _(v):
+    """'an equilibrium never accepts a constant whose dimension differs from concentration^(products-reactants)' on the real quantities package
+    (which compares float scales; the symbolic harnesses use exact scales): wrong dimensions are refused by the check and by the constructor; a
+    constant of the right dimension that is accepted has the scale of molar**exponent (3 mM read as 3 would be off by 1000**exponent; for exponent
+    0 a percentage is not a pure number); molar**exponent itself -- a dimensionless QUANTITY for exponent 0 -- is accepted.
+    NOT stated (false on the pinned tree, second review finding 3): acceptance of other exact spellings of 1 M such as mol/dm3."""
+    import quantities as pq
+    from chempy.chemistry import Equilibrium
+    from chempy.units import default_units as u
+    # unit -> mol/m3 per unit (hand table)
+    conc_units = (("molar", u.molar, 1e3), ("mM", u.mM, 1.0), ("uM", u.uM, 1e-3), ("mol/m3", u.mol / u.m3, 1.0), ("mol/cm3", u.mol / u.cm3, 1e6), ("mmol/dm3", pq.mmol / u.dm3, 1.0))
+    stoich = {-2: ({"A": 3}, {"B": 1}), -1: ({"A": 2}, {"B": 1}), 0: ({"A": 1}, {"B": 1}), 1: ({"A": 1}, {"B": 1, "C": 1}), 2: ({"A": 1}, {"B": 3})}
+
+    def check(expo, q, **kw):
+        try:
+            r, p = stoich[expo]
+            return bool(Equilibrium(r, p, q, checks=()).check_consistent_units(**kw))
+        except Exception as ex:
+            return ex
+    wrong_scale, no_molar, wrong_dim = [], [], []
+    for expo in stoich:
+        for name, unit, scale in conc_units:
+            if expo and check(expo, 3.0 * unit ** expo) is True and abs(scale / 1e3 - 1) > 1e-9:
+                wrong_scale.append((expo, name))
+        got = check(expo, 3.0 * u.molar ** expo if expo else 3.0 * u.dimensionless)
+        if got is not True:
+            no_molar.append((expo, repr(got)[:100]))
+        # one wrong dimension each: a concentration too many / too few, per time, per mass instead of per volume, bare time
+        for name, q in (("conc+1", 3.0 * u.molar ** (expo + 1)), ("conc-1", 3.0 * u.molar ** (expo - 1)), ("per_time", 3.0 * u.molar ** expo / u.s), ("molal", 3.0 * u.molal ** expo * u.molal),
+                        ("time", 3.0 * u.s)):
+            if check(expo, q) is not False or not isinstance(check(expo, q, throw=True), Exception):
+                wrong_dim.append((expo, name))
+    if check(0, 3.0 * pq.percent) is True:
+        wrong_scale.append((0, "percent"))
+    v.prove("accepted_only_at_the_scale_of_molar", not wrong_scale, detail=repr(wrong_scale))
+    v.prove("molar_to_the_exponent_accepted", not no_molar, detail=repr(no_molar))
+    v.prove("wrong_dimension_refused", not wrong_dim, detail=repr(wrong_dim[:6]))
+    ctor = []
+    for q, expect in ((3.0 / u.s, False), (3.0 * u.molar ** 2, False), (3.0 * u.molar, True)):
+        try:
+            Equilibrium({"A": 1}, {"B": 1, "C": 1}, q); got = True
+        except Exception:
+            got = False
+        ctor.append(got == expect)
+    v.prove("constructor_runs_the_check", all(ctor), detail=repr(ctor))
+
+
+@harness("C10", "alternative_builder.validate", functions=["chempy.kinetics.ode:_validate", "chempy.kinetics.ode:_create_odesys", "chempy.units:to_unitless"], kind="data")
+def _(v):
+    """the alternative builder's acceptance test (its dedimensionalisation follows each parameter's OWN dimension, so the refusal of a wrong
+    dimension rests on `validate` alone):  A + B -> A + C (k1),  C -> B (k2),  -> C (k0)  with [A] = 1 M, [B] = 2 mM, [C] = 5 uM, k1 = 3/(mM min),
+    k2 = 0.5/h, k0 = 7 uM/s.  By hand in M and s: k1 [A][B] = 50 * 1 * 2e-3 = 0.1;  k2 [C] = 0.5/3600 * 5e-6;  d[A]/dt = 0 (the catalyst),
+    d[B]/dt = -0.1 + k2 [C],  d[C]/dt = 0.1 - k2 [C] + 7e-6.  Every constant or concentration of a wrong dimension (or without unit) is refused;
+    the caller's quantities are not changed by the call"""
+    import warnings
+    from chempy.chemistry import Reaction
+    from chempy.reactionsystem import ReactionSystem
+    from chempy.kinetics import ode as _ode
+    from chempy.units import default_units as u
+    warnings.simplefilter("ignore")
+    good = lambda: dict(A=1 * u.molar, B=2 * u.mM, C=5 * u.uM, k1=3 / u.mM / u.minute, k2=0.5 / u.hour, k0=7 * u.uM / u.s)
+    k2C = 0.5 / 3600 * 5e-6
+    hand = {"A": 0.0, "B": -0.1 + k2C, "C": 0.1 - k2C + 7e-6}      # M/s
+    try:
+        create = getattr(_ode, "create_odesys", None) or getattr(_ode, "_create_odesys")
+        rsys = ReactionSystem([Reaction({"A": 1, "B": 1}, {"A": 1, "C": 1}, "k1"), Reaction({"C": 1}, {"B": 1}, "k2"), Reaction({}, {"C": 1}, "k0", checks=())], "A B C")
+        odesys, extra = create(rsys)
+        validate = extra["validate"]
+        setup = None
+    except Exception as ex:
+        setup = repr(ex)[:200]
+    bad_rates, untouched = [], []
+    if setup is None:
+        try:
+            cond = good()
+            before = {k: _si(q) for k, q in cond.items()}
+            rates = validate(dict(cond))["rates"]
+            rate_dim = _si(u.molar / u.s)[1]
+            for k, want in hand.items():
+                mag, dim = _si(rates[k])                                   # mol/m3/s
+                if dim != rate_dim or abs(mag / 1000.0 - want) > 1e-12 * max(abs(want), 1e-6):
+                    bad_rates.append((k, str(rates[k]), want))
+            untouched = [k for k, q in cond.items() if _si(q) != before[k]]
+        except Exception as ex:
+            bad_rates.append(repr(ex)[:200]); untouched.append(repr(ex)[:200])
+    # a second system in which every rate is a SINGLE term,  A -> B (k):  a wrong dimension cannot be refused by the accident that two terms of a sum
+    # do not add up, only by the check of each term against concentration/time.  k = 3/min, [A] = 2 mM: d[B]/dt = -d[A]/dt = 3/60 * 2e-3 = 1e-4 M/s
+    good1 = lambda: dict(A=2 * u.mM, B=0 * u.molar, k=3 / u.minute)
+    try:
+        validate1 = create(ReactionSystem([Reaction({"A": 1}, {"B": 1}, "k")], "A B"))[1]["validate"]
+        rates1 = validate1(good1())["rates"]
+        for k, want in (("A", -1e-4), ("B", 1e-4)):
+            mag, dim = _si(rates1[k])
+            if dim != _si(u.molar / u.s)[1] or abs(mag / 1000.0 / want - 1) > 1e-12:
+                bad_rates.append(("single term", k, str(rates1[k]), want))
+    except Exception as ex:
+        setup = setup or repr(ex)[:200]
+    v.prove("rates_with_units_equal_the_hand_computation", setup is None and not bad_rates, detail=repr(setup or bad_rates))
+    v.prove("callers_quantities_left_untouched", setup is None and not untouched, detail=repr(setup or untouched))
+    accepted = []
+    if setup is None:
+        for key, val in (("k1", 3 / u.minute), ("k1", 3 / u.mM ** 2 / u.minute), ("k1", 3.0), ("k2", 0.5 / u.hour / u.molar), ("k2", 0.5 * u.hour), ("k0", 7 / u.s), ("k0", 7 * u.uM),
+                         ("A", 1 * u.mol / u.kg), ("A", 1.0), ("B", 2 * u.mM / u.s), ("C", 5 * u.umol)):
+            try:
+                validate(dict(good(), **{key: val}))
+                accepted.append((key, str(val)))
+            except Exception:
+                pass
+        for key, val in (("k", 3 / u.molar / u.minute), ("k", 3 * u.molar / u.minute), ("k", 3 * u.minute), ("k", 3.0), ("A", 2 * u.mol / u.kg), ("A", 2 * u.mM / u.s), ("A", 2.0)):
+            try:
+                validate1(dict(good1(), **{key: val}))
+                accepted.append(("single term", key, str(val)))
+            except Exception:
+                pass
+    # ('refused' = any exception; the positive control is the first obligation: the same calls with the right dimensions return the rates)
+    v.prove("wrong_dimension_refused", setup is None and not accepted, detail=repr(setup or accepted))
+
+
+@harness("C10", "output_rescaling", functions=["chempy.kinetics.ode:get_odesys", "chempy.kinetics.ode:get_odesys.<locals>.post_processor", "chempy.units:rescale"], kind="data")
+def _(v):
+    """'output rescaling and parameter units reported alongside are consistent with it': what get_odesys installs to turn the integrator's numbers
+    back into quantities (no integration needed: the closure is called directly).  Registry dm / min / umol, 2 A -> B with k1 = 3/(mM min) free:
+    internal times [0, 30] are 0 and 30 min = 0.5 h; internal concentrations [[2000, 1], [500, 751]] umol/dm3 are [[2, 1e-3], [0.5, 0.751]] mM;
+    the internal parameter 0.003 dm3/(umol min) is 3/(mM min).  With output_time_unit=h, output_conc_unit=mM the results are expressed in these
+    units; without, in any unit -- in both cases with the same physical values"""
+    import warnings
+    import numpy as np
+    from chempy.chemistry import Reaction
+    from chempy.reactionsystem import ReactionSystem
+    from chempy.kinetics.ode import get_odesys
+    from chempy.kinetics.rates import MassAction
+    from chempy.units import SI_base_registry, default_units as u
+    warnings.simplefilter("ignore")
+    reg = dict(SI_base_registry, length=u.decimetre, time=u.minute, amount=u.micromole)
+    t_si, c_si, k_si = [0.0, 1800.0], [[2.0, 1e-3], [0.5, 0.751]], 3.0 / 60         # s, mol/m3 (= mM), m3/(mol s)
+    res = {}
+    for label, kw in (("requested", dict(output_conc_unit=u.mM, output_time_unit=u.hour)), ("default", {})):
+        bad = []
+        try:
+            rsys = ReactionSystem([Reaction({"A": 2}, {"B": 1}, MassAction([3 / u.mM / u.minute], unique_keys=["k1"]))], "A B")
+            odesys, extra = get_odesys(rsys, include_params=False, unit_registry=reg, **kw)
+            xo, yo, po = odesys.post_processors[-1](np.array([0., 30.]), np.array([[2000., 1.], [500., 751.]]), np.array([0.003]))
+            (xs, xd), (ys, yd) = _si(xo.units), _si(yo.units)
+            if xd != _si(u.s)[1] or not np.allclose(np.asarray(xo.magnitude, dtype=float) * xs, t_si, rtol=1e-12, atol=0):
+                bad.append(("time", str(xo)))
+            if yd != _si(u.molar)[1] or not np.allclose(np.asarray(yo.magnitude, dtype=float) * ys, c_si, rtol=1e-12, atol=0):
+                bad.append(("conc", str(yo)))
+            if label == "requested" and not (np.allclose(np.asarray(xo.magnitude, dtype=float), [0, 0.5], rtol=1e-12, atol=0) and
+                                             np.allclose(np.asarray(yo.magnitude, dtype=float), c_si, rtol=1e-12, atol=0)):
+                bad.append(("not in the requested units", str(xo), str(yo)))
+            pl = list(np.ravel(po))
+            ps, pd = _si(pl[0]) if len(pl) == 1 and hasattr(pl[0], "units") else (None, None)
+            par_ok = ps is not None and pd == _si(1 / u.molar / u.s)[1] and abs(ps / k_si - 1) < 1e-12
+            par_det = repr(po)
+        except Exception as ex:
+            bad.append(repr(ex)[:200]); par_ok, par_det = False, repr(ex)[:200]
+        res[label] = (bad, par_ok, par_det)
+    v.prove("times_and_concentrations_in_the_requested_units", not res["requested"][0], detail=repr(res["requested"][0]))
+    v.prove("times_and_concentrations_without_request", not res["default"][0], detail=repr(res["default"][0]))
+    v.prove("parameters_reported_with_their_units", res["requested"][1] and res["default"][1], detail=res["requested"][2] + " / " + res["default"][2])
+
+
+@harness("C10", "Radiolytic.end_to_end", functions=["chempy.kinetics.ode:_get_derived_unit", "chempy.kinetics.ode:get_odesys", "chempy.units:get_derived_unit",
+                                                     "chempy.kinetics.rates:mk_Radiolytic"], kind="data")
+def _(v):
+    """parameters whose unit comes from their NAME (dose rates 'doserate_<suffix>', density) in a unit-aware system:  -> A by two radiation fields
+    with yields 2e-7 mol/J and 3 umol/J, dose rates 10 Gy/s and 2 kGy/h, density 0.998 kg/dm3;  A -> B, 0.1/s, [A] = 1 M.  By hand: d[A]/dt =
+    998 kg/m3 * (2e-7 * 10 + 3e-6 * 2000/3600) mol/(kg s) / 1000 - 0.1 = -0.0999963406667 M/s, d[B]/dt = 0.1 M/s, in every registry; the number
+    handed over for each parameter times its reported unit is what was given"""
+    import warnings
+    import numpy as np
+    from chempy.chemistry import Reaction
+    from chempy.reactionsystem import ReactionSystem
+    from chempy.kinetics.ode import get_odesys
+    from chempy.kinetics.rates import mk_Radiolytic
+    from chempy.units import SI_base_registry, default_units as u
+    warnings.simplefilter("ignore")
+    regs = {"SI": dict(SI_base_registry), "dm_min_umol": dict(SI_base_registry, length=u.decimetre, time=u.minute, amount=u.micromole),
+            "cm_h_gram": dict(SI_base_registry, length=u.centimetre, time=u.hour, mass=u.gram)}
+    given = {"density": 0.998 * u.kg / u.dm3, "doserate_alpha": 10 * u.gray / u.s, "doserate_beta": 2 * u.kilogray / u.hour}
+    given_si = {"density": 998.0, "doserate_alpha": 10.0, "doserate_beta": 2000.0 / 3600}        # kg/m3, m2/s3
+    ref = [998.0 * (2e-7 * 10 + 3e-6 * 2000 / 3600) / 1000 - 0.1, 0.1]
+    bad_rate, bad_par = [], []
+    for name, reg in regs.items():
+        try:
+            rsys = ReactionSystem([Reaction({}, {"A": 1}, mk_Radiolytic("alpha", "beta")([2e-7 * u.mol / u.joule, 3 * u.umol / u.joule]), checks=()), Reaction({"A": 1}, {"B": 1}, 0.1 / u.s)], "A B")
+            odesys, extra = get_odesys(rsys, unit_registry=reg)
+            x, y, p = odesys.to_arrays(0 * u.s, {"A": 1 * u.molar, "B": 0 * u.molar}, dict(given))
+            f = np.asarray(odesys.f_cb(np.ravel(x)[0], np.ravel(y), np.ravel(p)), dtype=float).ravel()
+            scale = _si(reg["amount"] / reg["length"] ** 3 / reg["time"])[0]
+            got = [fi * scale / 1000.0 for fi in f]
+            if not np.allclose(got, ref, rtol=1e-10, atol=0):
+                bad_rate.append((name, got, ref))
+            pu, pv = dict(zip(odesys.param_names, extra["p_units"])), dict(zip(odesys.param_names, np.ravel(p)))
+            for key, q in given.items():
+                (us, ud), (gs, gd) = _si(pu[key]), _si(q)
+                if ud != gd or abs(float(pv[key]) * us / given_si[key] - 1) > 1e-11 or abs(gs / given_si[key] - 1) > 1e-12:
+                    bad_par.append((name, key, str(pu[key]), float(pv[key])))
+        except Exception as ex:
+            bad_rate.append((name, repr(ex)[:160])); bad_par.append((name, repr(ex)[:160]))
+    v.prove("physical_rate_with_suffixed_doserate_keys", not bad_rate, detail=repr(bad_rate[:2]))
+    v.prove("parameter_units_consistent_with_the_numbers_handed_over", not bad_par, detail=repr(bad_par[:3]))
